@@ -5,6 +5,33 @@ import importlib, json, os, sys
 HERE = os.path.dirname(os.path.dirname(os.path.abspath(__file__)))
 sys.path.insert(0, HERE)
 props = [json.loads(l) for l in open(os.path.join(HERE, "properties.jsonl"))]
+
+TECH = {
+ "C01": "runtime monitoring: boundary post-condition with a reference URL reader on input and output + sys.monitoring contracts on inner quote functions",
+ "C02": "runtime monitoring: offline class checker over a recorded event log (spelling classes, idempotence, mode round trips)",
+ "C03": "runtime monitoring: offline bucket checker over recorded (C,N,F) triples; composition laws",
+ "C04": "runtime monitoring: offline class checker over a recorded event log (documented-irrelevant transformations); redirect pre-step law",
+ "C05": "runtime monitoring: component-wise deletion-only post-condition vs a reference reader, option-footprint neighbour diff",
+ "C06": "runtime monitoring: class checker (fingerprint-irrelevant family), structural post-condition, over-stripping probes",
+ "C07": "runtime monitoring: differential monitor between helper and URL-level code paths; failpoint at urlsplit",
+ "C08": "runtime monitoring: reference-model monitor (independent PSL matcher) on bundled and exhaustive synthetic rule sets",
+ "C09": "runtime monitoring: shadow-set reference model over operation histories + structure-invariant hook on PY_RETURN",
+ "C10": "runtime monitoring: shadow-dict reference model over operation histories + structure-invariant hook on PY_RETURN",
+ "C11": "runtime monitoring: shadow-dict reference model over set/set_lru histories; variant key law",
+ "C12": "runtime monitoring: round-trip post-conditions read by the standard parser; serialization inverses on probed stem lists",
+ "C13": "runtime monitoring: offline pairwise checker over recorded LRUs of a finite universe (all ordered pairs)",
+ "C14": "runtime monitoring: contracts (strict decoder, delimiter/control conservation, idempotence) at the boundary and on sys.monitoring probes",
+ "C15": "runtime monitoring: recursion-depth monitor, exception monitor under a lowered recursion limit, step-provenance and fixed-point oracle",
+ "C16": "runtime monitoring: option-lattice implications per string, whitespace invariance, TLD rule; extraction post-conditions",
+ "C17": "runtime monitoring: str/bytes differential, generator ground truth, link post-conditions",
+ "C18": "runtime monitoring: ground-truth membership by construction over input forms; decoy non-interference",
+ "C19": "runtime monitoring: exception/raise-site monitor for totality, validators, record round trips",
+ "C20": "runtime monitoring: algebraic laws between calls; builder read-back with a strict query decoder",
+}
+LEVEL = ("Runtime monitoring of the real functions on generated, directed and exhaustive-small-scope workloads: the property held on every execution observed "
+         "(evaluations, distinct non-trivial cases, class coverage, exhaustive sub-spaces, probe events and anchor lines are in the evidence file). No claim beyond the observed "
+         "executions; a run whose deciding monitors never fired exits INCONCLUSIVE, not held. This is the right level for an input/history-quantified property of a pure-Python library: "
+         "the oracle does not need expected strings, so it scales to 1e5-1e7 executions per run.")
 BASE = "cd /repo && /venv/bin/python -m pytest -ra -q -p no:cacheprovider --timeout=900 --continue-on-collection-errors"
 man = {
     "version": 1,
@@ -46,11 +73,11 @@ for p in props:
         "engine": "vf",
         "level_claimed": {
             "category": "exploration",
-            "text": getattr(mod, "LEVEL_TEXT", "Runtime monitoring: the property held on every execution the workload produced (counts, classes and exhaustive sub-spaces in the evidence file); no claim beyond the observed executions."),
+            "text": getattr(mod, "LEVEL_TEXT", LEVEL),
             "design_ref": "DESIGN.md section 4, %s" % pid,
         },
         "level_note": getattr(mod, "LEVEL_NOTE", "; ".join(getattr(mod, "ASSUMPTIONS", [])) or "trusted base: CPython 3.12 and its standard library"),
-        "technique": getattr(mod, "TECHNIQUE", "runtime monitoring: reference-model / post-condition monitors on generated executions"),
+        "technique": getattr(mod, "TECHNIQUE", TECH.get(pid, "runtime monitoring")),
     })
 if not man["not_applicable"]:
     man["not_applicable"] = []
